@@ -34,7 +34,7 @@ CHECKS = {
              "affine data; the tetra gradient equals a for either element orientation; sum_i f_i div(X)_i = -sum meas X.grad f "
              "(triangles and tetrahedra of mixed orientation), div(grad f) = -A f, entries of div sum to zero, both triangle "
              "divergences coincide. All five kernels are re-traced from diffgeo.py each run (tetra: both orientation branches) and "
-             "bridged by proof; dispatch and whole-mesh outputs compared differentially.",
+             "bridged by proof; dispatch and whole-mesh outputs compared differentially. The type-name dispatch of the generic entry points is observed on the real code with recording kernels on every run (look-alike class names included) and fixed by a bridge theorem.",
         ref="DESIGN.md 6/C06",
         note=NOTE + "theorems hold under the complement of the kernels' own guards.",
         technique="Lean 4 proof (vector identities + induction over elements) tied by concolic tracing of the NumPy kernels and differential driver"),
@@ -91,7 +91,7 @@ CHECKS = {
              "lexicographic order, with the owning tetrahedron; listed faces of a positive tetrahedron point away from its fourth vertex; "
              "the origin-cone terms of the four faces sum to the signed volume, so for a face-manifold mesh whose shared faces have opposite "
              "windings the boundary's enclosed volume equals the sum of tetra volumes and the boundary is closed (every edge in an even "
-             "number of boundary faces). Model compared exactly with the implementation incl. exhaustive subsets x flips of the 5-tet cube.",
+             "number of boundary faces). Model compared exactly with the implementation incl. exhaustive subsets x flips of the 5-tet cube. TetMesh.orient_ / is_oriented are also re-traced from source on two tetrahedra (one negative at the concolic sample) and bridged by proof (signed volumes, decisions, rewritten elements, count).",
         ref="DESIGN.md 6/C12",
         note=NOTE + "the tetra model is hand-written and tied by exact differential comparison (np.unique semantics re-implemented).",
         technique="Lean 4 proof (ring identities per tetrahedron, counting/parity over the face list) tied by exact differential driver"),
@@ -102,7 +102,7 @@ CHECKS = {
              "edge-manifold, orientable and in which every triangle has a neighbour, the flood never cancels, terminates within 2*tdim+2 "
              "rounds covering every triangle (any number of components) and the result is oriented; closed results have volume >= 0; a "
              "second call returns 0 and changes nothing; an edge in three triangles forces ValueError. Model compared exactly (t and "
-             "count, non-termination observable through killable workers) on all orientable families x flip patterns.",
+             "count, non-termination observable through killable workers) on all orientable families x flip patterns. TriaMesh.orient_ is also re-traced from source on the tetrahedron boundary with symbolic vertices (inside-out: global flip; one reversed triangle: repaired by the flood) and bridged to the model by proof (the flood evaluated by decide, the volume decision by ring).",
         ref="DESIGN.md 6/C10",
         note=NOTE + "the orient_ model is hand-written and tied by exact differential comparison; np.unique/lexsort/SciPy product semantics re-implemented. "
              "The two-identical-triangles pillow is excluded (TriaMesh cannot hold fewer than 3 triangles).",
@@ -158,7 +158,7 @@ CHECKS = {
              "refine n = n single steps; half-edge counts transfer to the refined mesh, so closedness is preserved for all meshes and "
              "manifoldness, orientedness and the Euler characteristic for meshes without two triangles on the same vertex set "
              "(counter-example recorded as finding F14); rm_free_vertices_ specification (kept/deleted indices, rank renumbering, no free "
-             "vertex remains). Model compared exactly (incl. new-vertex numbering) on all families, it in 0..3.",
+             "vertex remains). Model compared exactly (incl. new-vertex numbering) on all families, it in 0..3. refine_(1) is also re-traced from source on the tetrahedron boundary with symbolic vertices (ten vertex positions, sixteen triangles with their numbering) and bridged by proof to the body of the model at the upper-triangular edge numbering.",
         ref="DESIGN.md 6/C11",
         note=NOTE + "refine_ model hand-written, tied by exact differential comparison (CSR edge order re-implemented).",
         technique="Lean 4 proof (ring identities per parent triangle, half-edge counting by induction) tied by exact differential driver"),
